@@ -1,6 +1,8 @@
 package main
 
 import (
+	"sync"
+	"math"
 	"bytes"
 	"fmt"
 
@@ -15,6 +17,82 @@ import (
 )
 
 // C01 — FASTA and FASTQ write-then-read reproduces every record.
+
+// c01ParallelWriters: independent writers (each with its own destination and its own records) used from different
+// goroutines at the same time must not influence one another: every stream equals what the same records give when
+// written alone.
+func c01ParallelWriters(r *obs.Run) {
+	rng := r.Rng
+	isFastq := rng.Intn(3) != 0
+	ng := 2 + rng.Intn(5)
+	al := ioAlphas[rng.Intn(2)]
+	type job struct {
+		recs []ioRec
+		want []byte
+		got  []byte
+		err  error
+	}
+	write := func(recs []ioRec, qid bool) ([]byte, error) {
+		cw := &countingWriter{}
+		var wr interface {
+			Write(seq.Sequence) (int, error)
+		}
+		if isFastq {
+			fw := fastq.NewWriter(cw)
+			fw.QID = qid
+			wr = fw
+		} else {
+			wr = fasta.NewWriter(cw, 60)
+		}
+		for _, rec := range recs {
+			if _, err := wr.Write(rec.toSeq(al.a, alphabet.Sanger, true)); err != nil {
+				return nil, err
+			}
+		}
+		return cw.buf.Bytes(), nil
+	}
+	jobs := make([]*job, ng)
+	for g := range jobs {
+		j := &job{}
+		for k := 0; k < 6+rng.Intn(10); k++ {
+			n := 500 + rng.Intn(3000)
+			j.recs = append(j.recs, ioRec{Name: genName(rng), Desc: genDesc(rng), Letters: genLetters(rng, al.a, n), Quals: genQuals(rng, alphabet.Sanger, n)})
+		}
+		j.want, j.err = write(j.recs, g%2 == 0)
+		if j.err != nil {
+			r.Violate("write-error", "Write returned "+j.err.Error(), nil)
+			return
+		}
+		j.want = append([]byte(nil), j.want...)
+		jobs[g] = j
+	}
+	var wg sync.WaitGroup
+	start := make(chan struct{})
+	for g, j := range jobs {
+		wg.Add(1)
+		go func(g int, j *job) {
+			defer wg.Done()
+			<-start
+			b, err := write(j.recs, g%2 == 0)
+			j.got, j.err = append([]byte(nil), b...), err
+		}(g, j)
+	}
+	close(start)
+	wg.Wait()
+	for g, j := range jobs {
+		if j.err != nil || !bytes.Equal(j.got, j.want) {
+			at := 0
+			for at < len(j.got) && at < len(j.want) && j.got[at] == j.want[at] {
+				at++
+			}
+			r.Violate("parallel-writers-interfere", fmt.Sprintf("%d independent %s writers in parallel: the stream of writer %d differs from the same records written alone (err=%v, first difference at byte %d of %d)", ng, map[bool]string{true: "fastq", false: "fasta"}[isFastq], g, j.err, at, len(j.want)),
+				map[string]interface{}{"writers": ng, "format_fastq": isFastq, "writer": g, "first_difference_at": at, "bytes": len(j.want)})
+			return
+		}
+	}
+	r.Count("parallel_writer_sets", 1)
+	r.Note(fmt.Sprintf("parallel/%v/%d/%x", isFastq, ng, hashBytes(jobs[0].want)), true)
+}
 
 func init() {
 	register(&obs.Monitor{
@@ -42,6 +120,11 @@ func init() {
 
 func c01Case(r *obs.Run, i int) {
 	rng := r.Rng
+	hugeWidth := false
+	if i%50 == 17 {
+		c01ParallelWriters(r)
+		return
+	}
 	al := ioAlphas[rng.Intn(len(ioAlphas))]
 	isFastq := rng.Intn(2) == 0
 	nrec := rng.Intn(7)
@@ -49,6 +132,10 @@ func c01Case(r *obs.Run, i int) {
 		nrec = 0
 	}
 	width := []int{1, 2, 59, 60, 61, 4096, 1 + rng.Intn(200), 1 + rng.Intn(10000)}[rng.Intn(8)]
+	if rng.Intn(25) == 0 { // "any positive line width": up to the largest int (arithmetic on the width must not overflow)
+		width = []int{math.MaxInt64, math.MaxInt64 - 1, math.MaxInt64 - rng.Intn(9000), math.MaxInt32, math.MaxInt32 + 1, 1 << 40}[rng.Intn(6)]
+		hugeWidth = true
+	}
 	enc := ioPhredEncs[rng.Intn(len(ioPhredEncs))]
 	quality := rng.Intn(3) != 0 // source type
 	qid := rng.Intn(2) == 0
@@ -59,8 +146,12 @@ func c01Case(r *obs.Run, i int) {
 	var recs []ioRec
 	anyLong, over8k := false, false
 	for k := 0; k < nrec; k++ {
-		n := genLen(rng, width, rng.Intn(6) == 0)
-		if !isFastq && rng.Intn(8) == 0 && n > 1 { // width relative to the length
+		lw := width
+		if hugeWidth {
+			lw = 60 // lengths are drawn around an ordinary width; the huge one only parameterises the writer
+		}
+		n := genLen(rng, lw, rng.Intn(6) == 0)
+		if !isFastq && !hugeWidth && rng.Intn(8) == 0 && n > 1 { // width relative to the length
 			width = []int{n - 1, n, n + 1}[rng.Intn(3)]
 		}
 		rec := ioRec{Name: genName(rng), Desc: genDesc(rng), Letters: genLetters(rng, al.a, n)}
@@ -295,7 +386,11 @@ func c01Case(r *obs.Run, i int) {
 		case fq:
 			text = fmt.Sprintf("%q\n", src)
 		default:
-			text = fmt.Sprintf(fmt.Sprintf("%%%da\n", width), src)
+			fw := width
+			if hugeWidth {
+				fw = 60 // fmt caps widths in a format string
+			}
+			text = fmt.Sprintf(fmt.Sprintf("%%%da\n", fw), src)
 		}
 		var back []seq.Sequence
 		if fq {
